@@ -97,7 +97,9 @@ Definition judge_c06 (g : cfg) (u : g06) (o : obs) : list N * g06 :=
   let v2 :=
     if is_nil removed then [] else
     match ob_op o with
-    | OErase id => if forallb (N.eqb id) removed then [] else [2; id]
+    | OErase id => if negb (forallb (N.eqb id) removed) then [2; id]
+                   (* erase_stored_publish erases a PUBLISH: a stored PUBREL under that identifier stays *)
+                   else if existsb (fun q => (k_pid q =? id) && negb (k_type q =? T_PUBLISH)) (c_store pre) then [32; id] else []
     | OClosed => if negb (g6_pers u) then [] else [3]
     | OSend p =>
       (* CONNECT with clean start / a refused v5 publish that had just been stored / CONNACK resume dropping oversize entries *)
